@@ -296,8 +296,8 @@ namespace ip {
 		for (auto const& buf : bufs)
 		{
 			char* ptr = static_cast<char*>(buf.data());
-			int const len = int(buf.size());
-			int const to_copy = (std::min)(int(p.buffer.size()), len);
+			// (a buffer may be larger than an int can tell)
+			int const to_copy = int((std::min)(p.buffer.size(), buf.size()));
 			memcpy(ptr, p.buffer.data(), to_copy);
 			read += to_copy;
 			p.buffer.erase(p.buffer.begin(), p.buffer.begin() + to_copy);
@@ -411,7 +411,7 @@ namespace ip {
 
 		const int mtu = m_io_service.get_path_mtu(m_bound_to.address(), dst.address());
 
-		if (int(ret) > 65535)
+		if (ret > 65535)
 		{
 			ec = boost::system::error_code(error::message_size);
 			return 0;
